@@ -64,6 +64,7 @@ type Step struct {
 	Tag    string  `json:"tag"`
 	After  string  `json:"after"`
 	HasRaw bool    `json:"hasraw"`
+	OldIdx bool    `json:"oldidx"`
 }
 
 type Cfg struct {
@@ -94,12 +95,13 @@ type Out struct {
 }
 
 type runner struct {
-	h    History
-	dir  string
-	cfg  reftable.Config
-	hs   int
-	rank map[string]int
-	st   map[int]*reftable.Stack
+	h       History
+	dir     string
+	cfg     reftable.Config
+	hs      int
+	rank    map[string]int
+	st      map[int]*reftable.Stack
+	lastIdx map[int]uint64
 }
 
 func (r *runner) bytesOf(tok string) []byte {
@@ -378,6 +380,11 @@ func (r *runner) step(s Step) (ev map[string]interface{}) {
 	case "add":
 		reftable.VerifSetAutoCompact(st, s.Auto)
 		idx := st.NextUpdateIndex()
+		if s.OldIdx && r.lastIdx[s.H] != 0 {
+			idx = r.lastIdx[s.H] // the caller retries a transaction it prepared before its handle was refreshed
+		}
+		r.lastIdx[s.H] = idx
+		ev["idx"] = idx
 		parts := []map[string]interface{}{}
 		for i, p := range s.Parts {
 			ro, lo := []refOut{}, []logOut{}
@@ -646,7 +653,7 @@ func main() {
 	}
 	outs := []Out{}
 	for _, h := range hs {
-		r := &runner{h: h}
+		r := &runner{h: h, lastIdx: map[int]uint64{}}
 		outs = append(outs, r.exec())
 	}
 	b, err := json.Marshal(outs)
